@@ -344,7 +344,7 @@ impl Wal {
         let segment_num = Self::find_latest_segment(dir)?;
         let segment_path = dir.join(format!("wal.{:06}", segment_num));
 
-        let segment = if segment_path.exists() {
+        let mut segment = if segment_path.exists() {
             WalSegment::open(&segment_path, segment_num)?
         } else {
             WalSegment::create(&segment_path, segment_num)?
@@ -368,6 +368,13 @@ impl Wal {
                 page_index.insert((header.file_id, header.page_no), (segment_num, offset));
                 offset += (WAL_FRAME_HEADER_SIZE + PAGE_SIZE) as u64;
             }
+
+            segment
+                .writer
+                .get_mut()
+                .seek(SeekFrom::Start(offset))
+                .wrap_err("failed to seek to end of valid WAL frames")?;
+            segment.offset = offset;
         }
 
         let frame_count = page_index.len() as u32;
@@ -612,6 +619,12 @@ impl Wal {
             .get_mut()
             .set_len(0)
             .wrap_err("failed to truncate WAL segment file")?;
+
+        segment
+            .writer
+            .get_mut()
+            .seek(SeekFrom::Start(0))
+            .wrap_err("failed to rewind WAL segment after truncate")?;
 
         segment
             .writer
